@@ -206,6 +206,9 @@ func RunWorker(p Property, tier string, seed int64, from, to int, outPrefix stri
 			}
 			if tag != "" {
 				mu.Lock()
+				buf := make([]byte, 1<<20)
+				buf = buf[:runtime.Stack(buf, true)]
+				os.WriteFile(outPrefix+".hangstack", buf, 0o644)
 				db, _ := json.Marshal(getDetail())
 				jf.WriteString(fmt.Sprintf("%s %d %s\n", tag, idx, db))
 				writeSummary()
